@@ -404,6 +404,16 @@ pub fn eval<'a, E: Env>(
         } => {
             let (lhs_ast, rhs_ast) = children.split_at(children.len() - rhs_len);
             let lhs = eval(lhs_ast, env)?;
+            // Unless the operator assigns to the left-hand-side operand, the
+            // operand is read before the right-hand-side operand is evaluated
+            // so that a side effect of the latter does not affect the former.
+            use BinaryOperator::*;
+            let lhs = match operator {
+                Assign | BitwiseOrAssign | BitwiseXorAssign | BitwiseAndAssign
+                | ShiftLeftAssign | ShiftRightAssign | AddAssign | SubtractAssign
+                | MultiplyAssign | DivideAssign | RemainderAssign => lhs,
+                _ => Term::Value(into_value(lhs, env)?),
+            };
             let rhs = eval(rhs_ast, env)?;
             apply_binary(lhs, rhs, *operator, location, env).map(Term::Value)
         }
